@@ -29,11 +29,10 @@ MC_THOROUGH = {'MaxDraws': 1, 'McTags': '{1}', 'McCfgs': '{"c0", "c1", "c2", "c3
                'JudgeKinds': '{"plain", "p_io", "p_func", "csvhdr", "midfile", "gl_dash", "gl_dashvar", "sys"}',
                'JudgeCfgs': '{"c0", "c1", "c2"}'}
 # a second thorough model run: the new kinds only, every configuration, two different inputs per configuration
-MC_THOROUGH_NEW = {'MaxDraws': 2, 'McTags': '{1, 2}', 'McCfgs': ALL_CFGS,
+MC_THOROUGH_NEW = {'MaxDraws': 1, 'McTags': '{1, 2}', 'McCfgs': '{"c0", "c1", "c3", "c4"}',
                    'McKinds': '{"plain", "p_func", "errfunc", "cancel", "gl_plain", "gl_dash", "gl_dashvar", "exit_enderr", '
                               '"exitbegin", "exit_endcancel", "sys", "pipe"}',
-                   'JudgeKinds': '{"plain", "p_func", "gl_dash", "gl_dashvar", "sys", "pipe"}', 'JudgeCfgs': ALL_CFGS}
-API = {'c0': 'exec', 'c1': 'ctx', 'c2': 'exec', 'c3': 'ctxdl', 'c4': 'ctxbg'}
+                   'JudgeKinds': '{"plain", "p_func", "gl_dash", "gl_dashvar", "sys", "pipe"}', 'JudgeCfgs': '{"c0", "c1", "c4"}'}
 COMMAND_KINDS = ('sys', 'pipe')
 
 GROUPS = {}
@@ -228,6 +227,14 @@ def run(ctx):
     ctx.cov['families'] = fams
     if not all(fams.get(k) for k in ('reuse', 'stdin', 'exit', 'ctx')):
         raise MachineryError(f'Gen_Reuse exported no case for some family: {fams}')
+    # the binding demonstration once more for each new family alone
+    for fam in ('stdin', 'exit', 'ctx'):
+        ff = ctx.path(f'cases_{fam}.ndjson')
+        with open(ff, 'w') as f:
+            for line in open(ctx.path('cases.ndjson')):
+                if json.loads(line)['fam'] == fam:
+                    f.write(line)
+        ctx.selftest(ff, 'C14', corrupt, f'gen-reuse-{fam}', k=8)
     # 3. code -> spec
     ntr = 100 if q else 1000
     ctx.harness(['C14', 'record', '-seed', str(ctx.seed), '-n', str(ntr), '-out', ctx.path('trace.ndjson')])
